@@ -414,6 +414,8 @@ func ruleR10(p *Prog) []Ob {
 	obs = append(obs, p.emptyResultObligations(ea)...)
 	// (e) the log file is only read through the decoders
 	obs = append(obs, p.rawReadObligations()...)
+	// (f) decoder errors fail the call
+	obs = append(obs, p.decoderErrorsPropagate()...)
 	return obs
 }
 
